@@ -122,7 +122,9 @@ def run_case(ck, desc):
         ck.count("general_pairs")
         dtmin = float(np.min(np.diff(t)[np.diff(t) > 0])) if np.any(np.diff(t) > 0) else 0.0
         if dtmin > 0:
-            bound = 10 * nt * np.finfo(float).eps * (abs(c) + float(t[-1])) / dtmin + 1e-12
+            # (+ the rounding of nt tridiagonal solves with nx unknowns each: sweep #9 met nx = 1500 and
+            # 1001 - the very fine meshes added in round 8 - at 2.6e-12 against 1.3e-12)
+            bound = 10 * nt * np.finfo(float).eps * (abs(c) + float(t[-1])) / dtmin + 1e-12 + 4 * pp1.shape[1] * nt * np.finfo(float).eps
             if bound <= 1e-6:
                 diff = float(np.max(np.abs(pp1 - pp2))) / m_scale
                 if not ck.margin("shift-invariant (rounding level)", diff, bound):
@@ -224,6 +226,22 @@ def run_case(ck, desc):
             ck.count("constant_schedule_pairs_other_constructor_pressure")
             if ev4 is None or not (np.array_equal(ev4["pp"], pp1) and np.array_equal(rf4, rf1) and (rfd1 is None or np.array_equal(rfd4, rfd1, equal_nan=True))):
                 ck.violation("constant-schedule = scalar setting", {"constructed_with": p_ctor, "schedule_value": desc["p_f"], "max_abs_field_diff": float(np.max(np.abs(ev4["pp"] - pp1))) if ev4 is not None else None}, desc)
+        # ... and for a value ABOVE the initial pressure (injection / a noisy gauge), inside the table:
+        # "a frac-face schedule that is constant in time gives exactly the result of the scalar setting"
+        from vf import tables as _tb2
+
+        hi_tab = _tb2.pressure_range(_tb2.from_desc(desc["table"]))[1]
+        v_up = desc["p_i"] + 0.3 * (hi_tab - desc["p_i"])
+        if v_up > desc["p_i"] * (1 + 1e-9):
+            try:
+                r_sc, e_sc, rf_sc, _, _, _ = _run(dict(desc, p_f=v_up, reused=False), t.copy())
+                r_sd, e_sd, rf_sd, _, _, _ = _run(dict(desc, reused=False), t.copy(), np.full(nt, v_up))
+                if e_sc is not None and e_sd is not None:
+                    if not (np.array_equal(e_sc["pp"], e_sd["pp"], equal_nan=True) and np.array_equal(rf_sc, rf_sd, equal_nan=True)):
+                        ck.violation("constant-schedule = scalar setting", {"value": v_up, "p_i": desc["p_i"], "above_initial_pressure": True, "max_abs_field_diff": float(np.nanmax(np.abs(e_sc["pp"] - e_sd["pp"])))}, desc)
+                    ck.count("constant_schedule_pairs_above_initial_pressure")
+            except Exception as e:  # noqa: BLE001
+                ck.count(f"above_initial_pressure_raised.{type(e).__name__}")
         # wrong schedule length is rejected
         for special in (1, 0):
             if special != nt:
